@@ -91,7 +91,7 @@ def main():
     # vtables: list of arrays of entries (type, name) or None
     vtabs = []
     for l in lines:
-        m = re.match(r'(@_ZTV[-\w.$]+) = .*?constant (\{.*\}) (\{ .* \})(?:, comdat)?(?:, align \d+)?\s*$', l)
+        m = re.match(r'(@_ZTV[-\w.$]+|@"_ZTV[^"]+") = .*?constant (\{.*\}) (\{ .* \})(?:, comdat)?(?:, align \d+)?\s*$', l)
         if not m: continue
         body = m.group(3).strip()[1:-1].strip()
         for arr in split_top(body):
